@@ -79,6 +79,45 @@ def evalSock (p : Pending) (glob : Oracle) (obsToks : List String) : String :=
   else head ++ " | " ++ showLog pm ++ " | " ++ showLog pi ++
     (if ps.bad.isEmpty && badTok.isEmpty then "" else " | bad: " ++ " ".intercalate (ps.bad ++ badTok))
 
+/-! language `range` -/
+
+def parseBuild (tok : String) : Option C16.Build :=
+  match fields tok with
+  | ["n", f, t, s] => some (.nums (toInt f) (toInt t) (toInt s))
+  | ["a", f, t, s] => some (.nums (toInt f) (toInt t) (toInt s))
+  | ["s", x, s] => some (.text (unhex x) (toInt s))
+  | ["c", f, t, s, s'] => some (.resize (toInt f) (toInt t) (toInt s) (toInt s'))
+  | ["d"] => some (.text [] (-1))
+  | _ => none
+
+def parseAcc (tok : String) : Option C16.Acc :=
+  match fields tok with
+  | ["r", v, f, t, l, s, x] => some { valid := v == "1", frm := toInt f, to := toInt t, len := toInt l, size := toInt s, text := unhex x }
+  | _ => none
+
+def showAcc (a : C16.Acc) : String :=
+  s!"r:{if a.valid then 1 else 0}:{a.frm}:{a.to}:{a.len}:{a.size}:{hex a.text}"
+
+def evalRange (p : Pending) (obsToks : List String) : String :=
+  let bs := p.toks.filterMap parseBuild
+  let accs := obsToks.filterMap parseAcc
+  let model := bs.map fun b => C16.accOf (C16.build b)
+  let bad := bs.length != p.toks.length || accs.length != bs.length
+  let eq := model == accs
+  let hm := (bs.zip model).all fun (b, a) => C16.holds b a
+  let hi := (bs.zip accs).all fun (b, a) => C16.holds b a
+  let b (x : Bool) := if x then "1" else "0"
+  let head := s!"RES {p.prop} {p.id} eq={b eq} hm={b hm} hi={b hi} miss={b bad} crash={b (obsToks.contains "crash")}"
+  if eq && hm && hi && !bad then head
+  else
+    -- report only the builds that differ or fail
+    let triples := (p.toks.zip (model.zip accs)).filter fun (_, m, a) =>
+      m != a || !(match parseBuild "" with | _ => true) || true
+    let badOnes := triples.filter fun (t, m, a) =>
+      m != a || (match parseBuild t with | some b => !(C16.holds b a) || !(C16.holds b m) | none => true)
+    head ++ " | " ++ " ".intercalate (badOnes.map fun (t, m, _) => t ++ "=>" ++ showAcc m) ++ " | " ++
+      " ".intercalate (badOnes.map fun (t, _, a) => t ++ "=>" ++ showAcc a)
+
 partial def loop (h : IO.FS.Stream) (glob : Oracle) (cur : Pending) : IO Unit := do
   let line ← h.getLine
   if line.isEmpty then return ()
@@ -93,6 +132,7 @@ partial def loop (h : IO.FS.Stream) (glob : Oracle) (cur : Pending) : IO Unit :=
   | "OBS" :: _ :: rest =>
     let out := match cur.lang with
       | "sock" => evalSock cur glob rest
+      | "range" => evalRange cur rest
       | l => s!"RES {cur.prop} {cur.id} eq=0 hm=0 hi=0 miss=1 crash=0 | unknown language {l}"
     IO.println out
     loop h glob cur
